@@ -4,9 +4,11 @@
 // not part of any build; with it on it adds nothing but the package clause.
 package models
 
+// NewPointFromBytes validates what it hands out: every field of an accepted point can be read back by the
+// iterator without a panic (a String value is at least its two quotes).
 //@ func NewPointFromBytes
-//@   assumed
-//@   modifies nothing
+//@   props C12 C15
+//@   loop 1 invariant iterating: p != nil && fresh(p) && 0 <= p.it.end && p.it.end <= len(p.fields) + 2 && len(p.fields) + 1 <= cap(p.fields)
 //@   ensures nil_iff_err: (result1 == nil) == (result0 != nil)
 
 // ---- C08.4: the shard hash is FNV-64a of the series key bytes and of nothing else ----
@@ -28,4 +30,229 @@ package models
 //@   props C08
 //@   arith bv
 //@   ensures key_only: result == fnv_fold_u64(uint64(14695981039346656037), row(p.key), off(p.key), len(p.key))
+//@   modifies nothing
+
+// ---- C12: no byte string crashes the line-protocol scanner ----
+// Every scanner takes (buf, i) and returns a position; the contracts carry the index facts the next scanner
+// needs (positions stay within [i, len(buf)], returned blocks are sub-slices of buf, what byte sits at the
+// returned position), so that ParsePointsWithPrecision is panic-free for every byte string.
+
+//@ pure term_at(buf, p, stop) = (buf[p] == stop || buf[p] == ' ') && buf[p-1] != '\\'
+
+//@ func skipWhitespace
+//@   props C12
+//@   requires 0 <= i
+//@   loop 1 invariant lo: i >= old(i) && (old(i) <= len(buf) ==> i <= len(buf))
+//@   ensures in_range: result >= i && (i <= len(buf) ==> result <= len(buf))
+//@   ensures stops_at_non_blank: result < len(buf) ==> buf[result] != ' '
+//@   modifies nothing
+
+//@ func scanLine
+//@   props C12
+//@   requires 0 <= i && i <= len(buf)
+//@   loop 1 invariant pos: start <= i && i <= len(buf)
+//@   loop 1 invariant counters: 0 <= equals && equals <= i && 0 <= commas && commas <= i
+//@   ensures in_range: result0 >= i && result0 <= len(buf) && len(result1) == result0 - i
+//@   ensures block_is_subslice: arr(result1) == arr(buf) && off(result1) == off(buf) + i && cap(result1) == cap(buf) - i
+//@   modifies nothing
+
+//@ func scanTo
+//@   props C12
+//@   requires 0 <= i && i <= len(buf)
+//@   loop 1 invariant pos: start <= i && i <= len(buf)
+//@   ensures in_range: result0 >= i && result0 <= len(buf) && len(result1) == result0 - i
+//@   modifies nothing
+
+// scanToSpaceOr has no end-of-buffer test after an escape: it needs an unescaped terminator ahead.
+//@ func scanToSpaceOr
+//@   props C12
+//@   requires 0 <= i && i < len(buf)
+//@   requires terminator_ahead: buf[i] == stop || buf[i] == ' ' || ex(p, i+1, len(buf), term_at(buf, p, stop))
+//@   loop 1 invariant pos: start <= i && i < len(buf) && ex(p, i+1, len(buf), term_at(buf, p, stop))
+//@   dead ret2
+//@   ensures in_range: result0 >= i && result0 <= len(buf) && len(result1) == result0 - i
+//@   modifies nothing
+
+//@ func scanTagValue
+//@   props C12
+//@   requires 1 <= i && i <= len(buf)
+//@   loop 1 invariant pos: start <= i && i <= len(buf)
+//@   dead ret2
+//@   ensures in_range: result0 >= i && result0 <= len(buf)
+//@   modifies nothing
+
+// (the field iterator calls it one past the end of the fields: buf[i:i] then needs spare capacity, not length)
+//@ func scanFieldValue
+//@   props C12
+//@   requires 0 <= i && i <= cap(buf)
+//@   loop 1 invariant pos: start <= i && (start <= len(buf) ==> i <= len(buf)) && (start > len(buf) ==> i == start)
+//@   ensures in_range: result0 >= i && (i <= len(buf) ==> result0 <= len(buf)) && (i > len(buf) ==> result0 == i) && len(result1) == result0 - i
+//@   modifies nothing
+
+//@ func scanMeasurement
+//@   props C12
+//@   requires 0 <= i && i <= len(buf)
+//@   loop 1 invariant pos: old(i) <= i && i < len(buf)
+//@   ensures in_range: result1 >= i && result1 <= len(buf)
+//@   ensures tags_follow: result2 == nil && result0 == 0 ==> result1 >= i + 2 && buf[result1-1] == ','
+//@   ensures fields_follow: result2 == nil && result0 != 0 ==> result0 == 2 && result1 >= i + 1 && result1 < len(buf) && buf[result1] == ' ' && buf[result1-1] != '\\'
+//@   ensures state_known: result2 == nil ==> result0 == 0 || result0 == 2
+//@   modifies nothing
+
+//@ func scanTagsKey
+//@   props C12
+//@   requires 1 <= i && i <= len(buf)
+//@   loop 1 invariant pos: old(i) <= i && i < len(buf)
+//@   ensures in_range: result0 >= i && result0 <= len(buf)
+//@   ensures advanced: result1 == nil ==> result0 >= i + 2
+//@   modifies nothing
+
+//@ func scanTagsValue
+//@   props C12
+//@   requires 1 <= i && i <= len(buf)
+//@   loop 1 invariant pos: old(i) <= i && i < len(buf)
+//@   ensures in_range: result1 >= i && result1 <= len(buf)
+//@   ensures next_tag: result2 == nil && result0 == 0 ==> result1 >= i + 2
+//@   ensures fields_follow: result2 == nil && result0 != 0 ==> result0 == 2 && result1 >= i + 1 && result1 < len(buf) && buf[result1] == ' ' && buf[result1-1] != '\\'
+//@   ensures state_known: result2 == nil ==> result0 == 0 || result0 == 2
+//@   modifies nothing
+
+//@ func scanTime
+//@   props C12
+//@   requires 0 <= i && i <= len(buf)
+//@   loop 1 invariant pos: start <= i && i <= len(buf)
+//@   ensures in_range: result0 >= i && result0 <= len(buf) && len(result1) <= result0 - i
+//@   modifies nothing
+
+//@ func scanBoolean
+//@   props C12
+//@   requires 0 <= i && i < len(buf)
+//@   loop 1 invariant pos: start < i && i <= len(buf)
+//@   ensures in_range: result0 >= i && result0 <= len(buf)
+//@   modifies nothing
+
+//@ func scanNumber
+//@   props C12
+//@   requires 1 <= i && i < len(buf)
+//@   loop 1 invariant pos: start <= i && i <= len(buf)
+//@   loop 1 invariant suffix_seen: (isInt || isUnsigned) ==> i >= start + 2
+//@   ensures in_range: result0 >= i && result0 <= len(buf)
+//@   modifies nothing
+
+// scanTags: indices[0..commas-1] are the tag starts in increasing order, indices[commas] is one past the
+// unescaped space that ends the key.
+//@ func scanTags
+//@   props C12
+//@   requires 1 <= i && i <= len(buf) && len(indices) >= 1
+//@   loop 1 invariant machine: 0 <= state && state <= 2 && err == nil && 1 <= i && i <= len(buf)
+//@   loop 1 invariant room: 0 <= commas && commas <= len(indices) && len(indices) >= 1 && len(indices) <= cap(indices)
+//@   loop 1 invariant starts: all(k, 0, commas, 1 <= indices[k] && indices[k] <= i) && all(k, 0, commas - 1, indices[k] < indices[k+1])
+//@   loop 1 invariant first: commas >= 1 ==> indices[0] == old(i)
+//@   loop 1 invariant storage: arr(indices) == old(arr(indices)) || fresh(indices)
+//@   loop 1 invariant key_state: state == 0 ==> (commas == 0 && i == old(i)) || (commas >= 1 && indices[commas-1] + 2 <= i)
+//@   loop 1 invariant value_state: state == 1 ==> commas >= 1 && indices[commas-1] + 2 <= i
+//@   loop 1 invariant fields_state: state == 2 ==> commas >= 1 && indices[commas-1] < i && i < len(buf) && buf[i] == ' ' && buf[i-1] != '\\'
+//@   ensures in_range: result0 >= i && result0 <= len(buf)
+//@   ensures tag_starts: result3 == nil ==> result1 >= 1 && result1 < len(result2) && result2[0] == i && result2[result1] == result0 + 1 && all(k, 0, result1, 1 <= result2[k] && result2[k] < result2[k+1] && result2[k] < result0)
+//@   ensures ends_at_space: result3 == nil ==> result0 < len(buf) && buf[result0] == ' ' && buf[result0-1] != '\\'
+//@   ensures storage: arr(result2) == arr(indices) || fresh(result2)
+//@   modifies indices[:]
+
+//@ func less
+//@   props C12
+//@   requires 0 <= i && i < len(indices) && 0 <= j && j < len(indices)
+//@   requires starts_in_buf: all(k, 0, len(indices), 0 <= indices[k] && indices[k] <= len(buf))
+//@   modifies nothing
+
+// insertionSort permutes indices[l:r]: every entry afterwards is one of the entries before.
+//@ func insertionSort
+//@   props C12
+//@   requires 0 <= l && l <= r && r <= len(indices)
+//@   requires starts_in_buf: all(k, 0, len(indices), 0 <= indices[k] && indices[k] <= len(buf))
+//@   loop 1 invariant outer: l < i && starts_in_buf_now(buf, indices) && from_old(indices)
+//@   loop 2 invariant inner: l <= j && j <= i && i < r && starts_in_buf_now(buf, indices) && from_old(indices)
+//@   ensures starts_in_buf: all(k, 0, len(indices), 0 <= indices[k] && indices[k] <= len(buf))
+//@   ensures entries_from_before: all(k, 0, len(indices), ex(m, 0, len(indices), indices[k] == old_elem(indices, m)))
+//@   modifies indices[:]
+//@ pure starts_in_buf_now(buf, indices) = all(k, 0, len(indices), 0 <= indices[k] && indices[k] <= len(buf))
+//@ pure from_old(indices) = all(k, 0, len(indices), ex(m, 0, len(indices), indices[k] == old_elem(indices, m)))
+
+// (the callback may write the variables it captures; a caller's contract call havocs exactly those)
+//@ func walkFields
+//@   props C12
+//@   dynamic_calls_modify_nothing
+//@   modifies nothing
+
+// scanFields starts at the unescaped space that ends the key (so at least one byte of key precedes it and the
+// look-behind buf[i-1], buf[i-2] at an '=' stays inside buf).
+//@ func scanFields
+//@   props C12
+//@   requires 1 <= i && i < len(buf) && buf[i] == ' '
+//@   loop 1 invariant pos: start <= i && i <= len(buf) && start >= 2
+//@   loop 1 invariant counters: 0 <= equals && equals <= i && 0 <= commas && commas <= i
+//@   ensures in_range: result0 >= i && result0 <= len(buf) && len(result1) <= result0 - i
+//@   modifies nothing
+
+// scanKey: measurement, then tags; unsorted tags are re-assembled in sorted order into a fresh buffer.
+// On success the returned position is the unescaped space that ends the key (what scanFields requires).
+// NOT PROVED (assumed, listed in the evidence, bounded stand-in in /verif/bounded): in the re-sort path the
+// rebuilt key fits its buffer (`b[pos] = ','` in range). The argument is that the sorted tags are a permutation of
+// disjoint segments of buf[start:i], a sum over a permutation, which the SMT encoding does not decide.
+//@ func scanKey
+//@   props C12
+//@   requires 0 <= i && i <= len(buf)
+//@   loop 1 invariant j_pos: 0 <= j
+//@   loop 2 invariant rebuilt: 0 <= pos && pos <= len(b) && fresh(b) && len(b) == i - start
+//@   loop 2 assume rebuilt_key_fits: pos < len(b)
+//@   loop 3 invariant j_pos: 0 <= j
+//@   ensures in_range: result0 >= i && result0 <= len(buf)
+//@   ensures ends_at_space: result2 == nil ==> result0 >= 1 && result0 < len(buf) && buf[result0] == ' '
+//@   modifies nothing
+
+//@ func parsePoint
+//@   props C12
+//@   modifies nothing
+//@   loop 1 invariant pos: 0 <= pos && pos <= len(buf)
+//@   ensures point_or_error: result1 == nil ==> result0 != nil
+
+// overflow is what this function tests for: c/b == a detects a wrapped product
+//@ func safeSignedMult
+//@   props C12
+//@   wraps
+//@   modifies nothing
+
+// A failing line is reported and skipped; the points accepted so far are kept.
+//@ func ParsePointsWithPrecision
+//@   props C12
+//@   loop 1 invariant pos: 0 <= pos && pos <= len(buf) + 1
+//@   loop 1 invariant accepted_non_nil: all(k, 0, len(points), points[k] != nil)
+//@   ensures accepted_non_nil: all(k, 0, len(result0), result0[k] != nil)
+
+// ---- C12: the binary point decoder and the field iterator run on bytes received from other nodes ----
+//@ func (*point).UnmarshalBinary
+//@   props C12 C15
+//@   ensures fields_have_spare_capacity: result == nil ==> len(p.fields) + 1 <= cap(p.fields)
+
+// Next: positions stay ordered; scanFieldValue(fields, end+1) may start one past the end, which only a
+// slice with spare capacity survives.
+//@ func (*point).Next
+//@   props C12 C15
+//@   requires iterator_in_range: 0 <= p.it.end && p.it.end <= len(p.fields) + 2 && len(p.fields) + 1 <= cap(p.fields)
+//@   ensures iterator_in_range: 0 <= p.it.end && p.it.end <= len(p.fields) + 2
+//@   ensures fields_kept: len(p.fields) == old(len(p.fields)) && cap(p.fields) == old(cap(p.fields))
+
+// StringValue is total: the iterator may stand on any bytes (Fields() of a point decoded from the wire).
+//@ func (*point).StringValue
+//@   props C12 C15
+//@   modifies nothing
+
+// Fields(): the iterator walk over the bytes of an accepted point.
+//@ func (*point).unmarshalBinary
+//@   props C12 C15
+//@   requires fields_have_spare_capacity: len(p.fields) + 1 <= cap(p.fields)
+//@   loop 1 invariant iterating: 0 <= p.it.end && p.it.end <= len(p.fields) + 2 && len(p.fields) + 1 <= cap(p.fields)
+
+//@ func unescapeStringField
+//@   props C12
+//@   loop 1 invariant pos: 0 <= i && i <= len(in) && (cap(out) == 0 || fresh(out)) && len(out) <= i
 //@   modifies nothing
